@@ -1101,6 +1101,9 @@ func (ds *AnySource) ChannelNames() []string {
 	return ds.chanNames
 }
 
+// maxRecordSamples is the longest record that can be configured.
+const maxRecordSamples = 1 << 24
+
 // ConfigurePulseLengths set the pulse record length and pre-samples.
 func (ds *AnySource) ConfigurePulseLengths(nsamp, npre int) error {
 	defer verifSpan("effect.pulselengths")()
@@ -1108,6 +1111,11 @@ func (ds *AnySource) ConfigurePulseLengths(nsamp, npre int) error {
 		nsamp < 1 || // require at least 1 sample
 		nsamp < npre+1 { // require at least one post trigger sample
 		return fmt.Errorf("ConfigurePulseLengths nsamp %v, npre %v are invalid", nsamp, npre)
+	}
+	// Record lengths are 32-bit numbers in the trigger code and in the file formats, and every channel keeps
+	// two records' worth of samples in memory: refuse absurd lengths instead of failing later while processing data.
+	if nsamp > maxRecordSamples {
+		return fmt.Errorf("ConfigurePulseLengths nsamp %v is too large, the longest record allowed has %v samples", nsamp, maxRecordSamples)
 	}
 	// Check every channel before changing any, so that a refusal leaves all channels with equal lengths.
 	for _, dsp := range ds.processors {
